@@ -147,6 +147,19 @@ CLAIMED['C20'] = ('Heap',
     'Trusted: TLC, value parser, id()/np.shares_memory, fingerprint of attributes via public accessors.',
     'DESIGN.md 3.2, 4 C20')
 
+CLAIMED['C05'] = ('DensityGate, MC_DensityGate, Gen_C05, Trace_C05',
+    'declarative TLA+ predicate of a valid density gate over bin counts and density ranks + the prefix algorithm; TLC '
+    'proves algorithm => predicate, monotonicity, all-at-1, none-outside, whole-bins on all small instances; integer '
+    'scenarios (replay of every bin mask, f=0/1, errors) generated by TLC and executed; recorded real gates validated by a '
+    'trace spec with harness-supplied edge codes and density ranks',
+    'Model checking of the gate specification on all 2x2 instances; exhaustive replay of every bin mask and the f=0/f=1/'
+    'error cases on small code grids; recorded gates on tied, continuous, clustered and sample-derived binnings are '
+    'accepted only if the returned bin mask is a valid gate for the ranks (lower bound, density-closed, minimal, '
+    'existential over exact ties), the event mask is the events of the kept bins, and replay / permutation / larger f agree.',
+    'Trusted: TLC, value parser; density ranks computed by the harness with the documented gaussian_filter call (input, not '
+    'oracle); edge codes from comparisons with the returned edges; n or n+1 accepted when f*n is integral.',
+    'DESIGN.md 3.3, 4 C05')
+
 NOT_APPLICABLE = {
     'C09': 'continuum numerics only (L-BFGS-B recovery of real parameters, real-analytic identities of closures): no '
            'state, history or case analysis for a TLA+ specification to enumerate; discrete fragment (Fit refuses <3 '
